@@ -29,8 +29,8 @@ import (
 )
 
 type RaceCase struct {
-	Kind    string `json:"kind"`    // expired-lookup-vs-register | duplicate-open
-	Backend string `json:"backend"` // memory | hybrid-memory
+	Kind    string `json:"kind"`    // expired-lookup-vs-register | duplicate-open | concurrent-register (Lookers = registrations per round)
+	Backend string `json:"backend"` // memory | hybrid-memory (redis | hybrid-redis for concurrent-register)
 	Lookers int    `json:"lookers,omitempty"`
 	Rounds  int    `json:"rounds"`
 }
@@ -133,6 +133,73 @@ func runExpiredLookupRace(c RaceCase) *failure {
 			}
 		}
 		done += n
+	}
+	return nil
+}
+
+// ---------------------------------------------------------------------------
+// 3. concurrent registrations of different tunnels on the Redis-backed stores
+
+func runConcurrentRegisterRace(c RaceCase) *failure {
+	if err := setupEnv(); err != nil {
+		panic("C09 harness: cannot start miniredis: " + err.Error())
+	}
+	ctx := context.Background()
+	// node tables: 0 and 1 share ONE storage object (one process, several callers), 2 has its own
+	var stores []storage.Storage
+	if c.Backend == "redis" {
+		redisA.mr.FlushAll()
+		stores = []storage.Storage{redisA.clients[0], redisA.clients[0], redisA.clients[1]}
+	} else {
+		redisB.mr.FlushAll()
+		h0 := hybrid.NewWithSharedCache(ctx, memory.New(ctx), noCloseRedis{redisB.clients[0]}, nil, hybrid.DefaultConfig())
+		h1 := hybrid.NewWithSharedCache(ctx, memory.New(ctx), noCloseRedis{redisB.clients[1]}, nil, hybrid.DefaultConfig())
+		stores = []storage.Storage{h0, h0, h1}
+	}
+	var nodes []*tunnel.RoutingTable
+	for _, st := range stores {
+		nodes = append(nodes, tunnel.NewRoutingTable(st, 30*time.Second))
+	}
+	width := c.Lookers // concurrent registrations per round
+	for r := 0; r < c.Rounds; r++ {
+		ids := make([]string, width)
+		specs := make([]*StateSpec, width)
+		for g := 0; g < width; g++ {
+			ids[g] = fmt.Sprintf("creg:%d:%d*", r, g)
+			// records of clearly different lengths and contents: a mixed-up or truncated record cannot pass for the right one
+			specs[g] = &StateSpec{Mapping: Str{Lit: fmt.Sprintf("map-%d-", g), Rep: string(rune('a' + g)), N: 7 + 61*g}, Secret: Str{Rep: "s", N: g},
+				SrcNode: Str{Lit: fmt.Sprintf("node-%d", g%3+1)}, SrcClient: int64(r*100 + g), TgtClient: 1<<53 + int64(g), Host: Str{Lit: fmt.Sprintf("host-%d.example", g)}, Port: 1000 + g}
+		}
+		var ss spinStart
+		var wg sync.WaitGroup
+		errs := make([]error, width)
+		for g := 0; g < width; g++ {
+			wg.Add(1)
+			go func(g int) {
+				defer wg.Done()
+				ss.wait()
+				errs[g] = nodes[g%len(nodes)].RegisterWaitingTunnel(ctx, specs[g].build(ids[g]))
+			}(g)
+		}
+		ss.release(width)
+		wg.Wait()
+		for g := 0; g < width; g++ {
+			if errs[g] != nil {
+				return &failure{"C09/race/register-error/" + c.Backend, errs[g].Error()}
+			}
+			for ni, nd := range []*tunnel.RoutingTable{nodes[0], nodes[2]} {
+				got, err := nd.LookupWaitingTunnel(ctx, ids[g])
+				if err != nil {
+					return &failure{fmt.Sprintf("C09/race/concurrent-register/record-unreadable/%s/%s", c.Backend, errShape(err)),
+						fmt.Sprintf("round %d: %d tunnels were registered at the same instant; %q afterwards on node %d: %v", r, width, ids[g], ni, err)}
+				}
+				if f, _, d := compare(ids[g], specs[g], got); f != "" {
+					return &failure{fmt.Sprintf("C09/race/concurrent-register/foreign-or-mixed-record/%s/%s", c.Backend, f),
+						fmt.Sprintf("round %d: %d tunnels were registered at the same instant; %q resolves on node %d to a record that is not its own: %s", r, width, ids[g], ni, d)}
+				}
+			}
+			nodes[2].RemoveWaitingTunnel(ctx, ids[g])
+		}
 	}
 	return nil
 }
@@ -258,6 +325,8 @@ func checkRace(t vkit.TB, c RaceCase) {
 		f = runExpiredLookupRace(c)
 	case "duplicate-open":
 		f, _ = runDuplicateOpenRace(c)
+	case "concurrent-register":
+		f = runConcurrentRegisterRace(c)
 	default:
 		return
 	}
@@ -274,6 +343,10 @@ func checkRace(t vkit.TB, c RaceCase) {
 func TestContention(t *testing.T) {
 	lookRounds := vkit.PerShard(vkit.Pick(24000, 480000))
 	dupRounds := vkit.PerShard(vkit.Pick(1600, 24000))
+	regRounds := vkit.PerShard(vkit.Pick(4800, 48000))
+	for _, be := range []string{"redis", "hybrid-redis"} {
+		checkRace(t, RaceCase{Kind: "concurrent-register", Backend: be, Lookers: 8, Rounds: regRounds / 2})
+	}
 	for _, be := range []string{"memory", "hybrid-memory"} {
 		for lookers := 1; lookers <= 3; lookers++ {
 			checkRace(t, RaceCase{Kind: "expired-lookup-vs-register", Backend: be, Lookers: lookers, Rounds: lookRounds / 6})
